@@ -1,0 +1,22 @@
+//go:build !verif
+
+// Package verifhook provides instrumentation points used by the deterministic
+// simulation harness. Without the "verif" build tag every function is an empty,
+// inlinable no-op and the package keeps no state.
+package verifhook
+
+import "syscall"
+
+// Enabled reports whether the hooks are compiled in.
+const Enabled = false
+
+// At marks a scheduling point: under simulation the calling goroutine may be
+// parked here until the simulator releases it.
+func At(point string, args ...any) {}
+
+// Obs records an observation without ever parking the caller (safe to call
+// with a lock held).
+func Obs(point string, args ...any) {}
+
+// Statfs lets the simulator override the result of a statfs(2) call.
+func Statfs(stat *syscall.Statfs_t) {}
